@@ -39,6 +39,7 @@ def one_trace(seed, steps):
     codec = A.LabelCodec()
     ds = A.Dataset()
     events = []
+    abandoned = []
     val = 0
     for _ in range(steps):
         names = list(ds.dims)
@@ -46,7 +47,9 @@ def one_trace(seed, steps):
         free_names = [n for n in NAMES if n not in names]
         choices = ["setvar"] * 4
         if keys:
-            choices += ["delvar", "rename_keys", "rename_var"]
+            choices += ["delvar", "rename_keys", "rename_var", "set_axis_var", "relabel_one_var", "rename_var_set_axis"]
+            if all(ds.axes[n].size > 0 for n in names) and all(any(n in dict.__getitem__(ds, q).dims for q in keys) for n in names):
+                choices += ["continue"]
         if names:
             choices += ["rename_ds", "rename_axes", "set_axis", "relabel_one", "replace_axis", "set_dims"]
         if free_names and len(names) < 5:
@@ -69,6 +72,35 @@ def one_trace(seed, steps):
             if v.ndim == 0 or not free_names:
                 continue
             args = dict(k=k, j=rng.randrange(v.ndim) + 1, n=rng.choice(free_names))
+        elif act in ("set_axis_var", "relabel_one_var", "rename_var_set_axis"):
+            k = rng.choice(keys)
+            v = dict.__getitem__(ds, k)
+            if v.ndim == 0:
+                continue
+            j = rng.randrange(v.ndim)
+            if act == "set_axis_var":
+                args = dict(k=k, j=j + 1, labs=_rand_labs(rng, v.axes[j].size))
+            elif act == "relabel_one_var":
+                if v.axes[j].size == 0:
+                    continue
+                args = dict(k=k, j=j + 1, i=rng.randrange(v.axes[j].size) + 1, v=rng.choice([1, 5, 7, 9]))
+            else:
+                if not free_names:
+                    continue
+                args = dict(k=k, j=j + 1, n=rng.choice(free_names))
+        elif act == "continue":
+            kind = rng.choice(["copy", "rename_axes_copy", "set_axis_copy", "rename_keys_copy"])
+            act = "continue_" + kind
+            d = rng.choice(names) if names else ""
+            others = [q for q in KEYS if q not in keys]
+            if kind in ("rename_axes_copy", "set_axis_copy") and not names:
+                continue
+            if kind == "rename_axes_copy" and not free_names:
+                continue
+            if kind == "rename_keys_copy" and not others:
+                continue
+            args = dict(d=d, n=(rng.choice(others) if kind == "rename_keys_copy" else (rng.choice(free_names) if free_names else "q")),
+                        k=rng.choice(keys), labs=_rand_labs(rng, ds.axes[d].size) if d else [])
         elif act in ("rename_ds", "rename_axes"):
             if not free_names:
                 continue
@@ -77,11 +109,11 @@ def one_trace(seed, steps):
             if rng.random() < 0.4 and len(names) >= 2:
                 perm = names[:]
                 rng.shuffle(perm)
-                args = dict(names=perm)              # a permutation of the current names (swap / shift)
+                args = dict(names=perm, olds=names)  # a permutation of the current names (swap / shift)
             elif len(free_names) < len(names):
                 continue
             else:
-                args = dict(names=rng.sample(free_names, len(names)))
+                args = dict(names=rng.sample(free_names, len(names)), olds=names)
         elif act in ("set_axis", "replace_axis"):
             d = rng.choice(names)
             args = dict(d=d, labs=_rand_labs(rng, ds.axes[d].size))
@@ -94,7 +126,10 @@ def one_trace(seed, steps):
             args = dict(d=rng.choice(free_names), labs=_rand_labs(rng, rng.choice([1, 2, 3])))
         ev = dict(act=act, args=args)
         try:
-            _apply(ds, ev, codec)
+            new = _apply(ds, ev, codec)
+            if new is not None:
+                abandoned.append((ds, project_ds(ds, codec)))
+                ds = new
             ev["ok"] = True
         except ValueError:
             ev["ok"] = False
@@ -103,6 +138,9 @@ def one_trace(seed, steps):
             ev["exc"] = type(e).__name__
         try:
             ev["post"] = project_ds(ds, codec)
+            for old, proj in abandoned:
+                if project_ds(old, codec) != proj:     # an abandoned Dataset changed: no specification state has this projection
+                    ev["post"] = dict(dims=["<abandoned Dataset changed>"], labs=[], vars=[])
         except Exception as e:  # noqa  -- an unprojectable Dataset ends the trace; the specification will reject the event
             ev["post"] = dict(dims=["<unprojectable: %s>" % type(e).__name__], labs=[], vars=[])
             events.append(ev)
